@@ -239,8 +239,12 @@ func visible(y string) string {
 
 var variants = []variant{
 	{"identical", true, func(y string, _ *e2e.Agent) string { return y }},
-	{"label-changed", true, func(y string, _ *e2e.Agent) string { return strings.Replace(y, "metricLabel: filtered", "metricLabel: filtered2", 1) }},
-	{"field-appended", true, func(y string, _ *e2e.Agent) string { return strings.Replace(y, "log, class]", "log, class, extra1]", 1) }},
+	{"label-changed", true, func(y string, _ *e2e.Agent) string {
+		return strings.Replace(y, "metricLabel: filtered", "metricLabel: filtered2", 1)
+	}},
+	{"field-appended", true, func(y string, _ *e2e.Agent) string {
+		return strings.Replace(y, "log, class]", "log, class, extra1]", 1)
+	}},
 	{"invalid-yaml", false, func(y string, _ *e2e.Agent) string { return visible(y) + "\n  : : :\n- [\n" }},
 	{"unknown-field", false, func(y string, _ *e2e.Agent) string {
 		return visible(strings.Replace(y, "key: time\n    errorLabel", "key: nosuchfield\n    errorLabel", 1))
@@ -248,8 +252,12 @@ var variants = []variant{
 	{"keys-changed", false, func(y string, _ *e2e.Agent) string {
 		return visible(strings.Replace(strings.Replace(y, "keys: [app, level]", "keys: [app]", 1), "tag: t.$app.$level", "tag: t.$app", 1))
 	}},
-	{"inputs-changed", false, func(y string, _ *e2e.Agent) string { return visible(strings.Replace(y, "[off, fatal, crit,", "[OFF, fatal, crit,", 1)) }},
-	{"maxfields-changed", false, func(y string, _ *e2e.Agent) string { return visible(strings.Replace(y, "maxFields: 12", "maxFields: 13", 1)) }},
+	{"inputs-changed", false, func(y string, _ *e2e.Agent) string {
+		return visible(strings.Replace(y, "[off, fatal, crit,", "[OFF, fatal, crit,", 1))
+	}},
+	{"maxfields-changed", false, func(y string, _ *e2e.Agent) string {
+		return visible(strings.Replace(y, "maxFields: 12", "maxFields: 13", 1))
+	}},
 	{"output-added", false, func(y string, a *e2e.Agent) string {
 		y = visible(y)
 		i := strings.Index(y, "  - name: out1")
@@ -279,6 +287,8 @@ func reloadCountsOf(a *e2e.Agent) (ok, ko float64) {
 	}
 	return
 }
+
+var scrapes atomic.Int64
 
 func reloadCounts() (ok, ko float64) {
 	for _, m := range vkit.Gather(prometheus.DefaultGatherer) {
@@ -354,6 +364,23 @@ func e2eChild(c *vkit.Ctx) {
 			}
 			done = make(chan struct{})
 			baseYAML, _ := os.ReadFile(a.CfgPath)
+			if !a.ProcessLevel() {
+				// what a Prometheus server does to the metric listener: gather through the reloader's gatherer all the time
+				// (process-level runs do it over HTTP while they wait for each reload)
+				g := a.Reloader.GetMetricGatherer()
+				go func() {
+					for {
+						select {
+						case <-done:
+							return
+						default:
+						}
+						_, _ = g.Gather()
+						scrapes.Add(1)
+						time.Sleep(500 * time.Microsecond)
+					}
+				}()
+			}
 			go func() {
 				defer close(done)
 				ro, _ := a.Orc.(*run.ReloadableOrchestrator)
@@ -430,6 +457,7 @@ func e2eChild(c *vkit.Ctx) {
 		c.Event("e2e_"+k, v)
 	}
 	c.Event("e2e_runs", 1)
+	c.Event("e2e_scrapes_during_reload_plans", int(scrapes.Swap(0)))
 	if sc.ProcessLevel {
 		c.Event("e2e_process_level_runs", 1)
 	}
